@@ -257,8 +257,8 @@ Fixpoint ser_prim (p : prim) : res bytes :=
       let fix entries (d : list (bytes * prim)) : res bytes :=
         match d with
         | [] => Ok []
-        | (k, v) :: t => do a <- ser_prim v; do r <- entries t;
-                         Ok (47 :: k ++ 32 :: a ++ 10 :: r)
+        | (k, v) :: t => do kk <- ser_name k; do a <- ser_prim v; do r <- entries t;
+                         Ok (kk ++ 32 :: a ++ 10 :: r)     (* serialize_name(key), " ", value, "\n" *)
         end in
       do r <- entries d; Ok (bs "<<" ++ 10 :: r ++ bs ">>" ++ [10])
   end.
